@@ -209,6 +209,15 @@ CLAIMED = {
         technique='contracts on the real methods (with-protocol, loop invariant, string terms), pyvc -> z3',
         design_ref='7/C23',
     ),
+    'C17': dict(
+        text='Batch._async_run numbering loop as a verified checker (nested loop invariants): on a normal exit job k of the list has _job_id k+1 and every dependency of every job has a strictly smaller number, self._jobs is handed to the backend in that order, BatchException only when some dependency does not come earlier; the check precedes the backend call (AST). '
+        'Job._interpolate_command.handler: a resource produced by another job makes that job a dependency whether or not the job is always-run, and is registered as input/output. '
+        'LocalBackend._async_run: the job loop is sliced mechanically to its skip logic and verified with a loop invariant (a job is marked cancelled iff it is not always-run and a parent failed or was skipped; processed jobs are bad iff they ran and failed or were skipped): the jobs skipped are exactly the non-always-run jobs with a failed or skipped parent, an error is reported iff a job that ran failed; cancel_child_jobs under its own loop contract.',
+        note=COMMON_NOTE + 'Assumed: the DFS builds a duplicate-free, dependency-closed list (not under contract; hence "a DAG is never falsely rejected" is undecided); cyclic relations admit no topological numbering (paper lemma); the slice drops the shell-generating statements (listed in evidence), run_code is an oracle; child relation = inverse dependencies (AST obligation). '
+        'Quantified VCs that FAIL come back unknown from z3; a violation is then reported only with a witness from the native search on the real Batch/LocalBackend (random pipelines, real bash). Thorough tier: 600 random pipelines as a bounded stand-in.',
+        technique='loop-invariant contracts on the real functions (one on a mechanical slice), pyvc -> z3 with quantified invariants; native random-pipeline search as witness/replay',
+        design_ref='7/C17',
+    ),
     'C20': dict(
         text='Ghost count HELD of semaphore units held by one coroutine. run_with_sema / run_with_sema_return_exceptions: the partial function is called holding exactly one unit, nothing held afterwards, value / exception passed on unchanged, the return-exceptions variant turns EVERY exception (BaseException) into (None, exc) and never raises. '
         'Gather bodies: one task per partial function in submission order, handed to gather in that order, results returned in that order, awaited without the caller\'s unit, unit restored; with cancel_on_error every task is finished or cancelled (loop invariant) and all are awaited before the first exception leaves. '
